@@ -99,6 +99,16 @@ pub fn tok_to_char(s: &str) -> char {
     match s {
         "E" => '\u{e9}',
         "W" => '\u{1D11E}',
+        // C14: whitespace and line terminators have token names
+        "S" => ' ',
+        "T" => '\t',
+        "N" => '\n',
+        "R" => '\r',
+        "V" => '\u{b}',
+        "F" => '\u{c}',
+        "X" => '\u{85}',
+        "L" => '\u{2028}',
+        "P" => '\u{2029}',
         "" => '\u{0}',
         _ => s.chars().next().unwrap(),
     }
@@ -107,6 +117,15 @@ pub fn char_to_tok(c: char) -> String {
     match c {
         '\u{e9}' => "E".to_string(),
         '\u{1D11E}' => "W".to_string(),
+        ' ' => "S".to_string(),
+        '\t' => "T".to_string(),
+        '\n' => "N".to_string(),
+        '\r' => "R".to_string(),
+        '\u{b}' => "V".to_string(),
+        '\u{c}' => "F".to_string(),
+        '\u{85}' => "X".to_string(),
+        '\u{2028}' => "L".to_string(),
+        '\u{2029}' => "P".to_string(),
         '\u{0}' => "".to_string(),
         _ => c.to_string(),
     }
